@@ -45,6 +45,9 @@ func c14gen(g *gen, tier string, w *bufio.Writer) {
 	for _, b := range []string{"cdb", "rocksdb"} {
 		fmt.Fprintf(w, "race %s %d %d\n", b, secs, workers+g.intn(3))
 	}
+	// more query workers than the RocksDB iterator pool holds (NumberOfIterators = 15): lookups wait
+	// for a pooled iterator while a catch-up drains the pool
+	fmt.Fprintf(w, "race rocksdb %d %d\n", secs, 20+g.intn(8))
 }
 
 const c14base = "/repo/dnsrocks/testdata/data/data.in"
